@@ -48,7 +48,10 @@ type CheckDef struct {
 	// (C10 only); otherwise it is inconclusive.
 	HangIsViolation bool
 	HangSeconds     int
-	Assumptions     []string
+	// MemoryIsViolation: a case that drives the worker's heap past the
+	// ceiling counts as a violation (C08, C10: a call must return or fail).
+	MemoryIsViolation bool
+	Assumptions       []string
 	// Pre runs once in the supervisor before the workers (cross validation
 	// etc.). A non-nil error makes the run inconclusive (exit 2).
 	Pre func(tier string, seed uint64) (map[string]interface{}, error)
@@ -113,6 +116,15 @@ func (c *Ctx) Max(name string, v int64) {
 		c.counters["max:"+name] = v
 	}
 	c.mu.Unlock()
+}
+
+// Beat records progress inside a long case: the watchdog measures the time
+// since the last beat, so "no progress" means one bounded step (a batch of
+// lookups, one scan, one load) did not come back.
+func (c *Ctx) Beat() {
+	if atomic.LoadInt64(&c.caseStart) != 0 {
+		atomic.StoreInt64(&c.caseStart, time.Now().UnixNano())
+	}
 }
 
 // Eval counts one executed case (a work item may hold many).
@@ -201,6 +213,9 @@ func (m *Merged) C(name string) int64 { return m.Counters[name] }
 
 var buildMode = "plain"
 
+// memCeiling per worker process: far above what any case needs (< 1 GiB).
+const memCeiling = 5 << 30
+
 // ---- worker ---------------------------------------------------------------
 
 func workDir(prop, tier string, seed uint64) string {
@@ -249,10 +264,20 @@ func runWorker(def *CheckDef, tier string, seed uint64, w, nw, startAfter int, g
 		ioutil.WriteFile(resFile+".tmp", b, 0644)
 		os.Rename(resFile+".tmp", resFile)
 	}
-	// watchdog: a case that makes no progress for hangSec seconds.
+	// watchdog: a case that makes no progress for hangSec seconds, or a worker
+	// whose heap passes the ceiling (runaway allocation must not take the
+	// machine, and with it every other monitor, down).
 	go func() {
+		var ms runtime.MemStats
 		for {
 			time.Sleep(time.Second)
+			runtime.ReadMemStats(&ms)
+			if ms.HeapAlloc > memCeiling {
+				c := int(atomic.LoadInt64(&cur))
+				fmt.Fprintf(os.Stderr, "MEMORY: heap %d MiB while running case %d\n", ms.HeapAlloc>>20, c)
+				fmt.Fprintf(jf, "memory %d\n", c)
+				os.Exit(5)
+			}
 			st := atomic.LoadInt64(&ctx.caseStart)
 			if st != 0 && time.Since(time.Unix(0, st)) > time.Duration(hangSec)*time.Second {
 				c := int(atomic.LoadInt64(&cur))
@@ -462,7 +487,11 @@ func runPass(def *CheckDef, tier string, seed uint64, exe, mode string, limit in
 					last = *res.Hang
 				} else if last >= 0 {
 					fp := def.ID + "/worker-death"
-					if isOOM(err, tail) {
+					if isOOM(err, tail) && def.MemoryIsViolation {
+						merged.Deaths = append(merged.Deaths, Violation{Prop: def.ID, Fingerprint: def.ID + "/memory-blowup", CaseIdx: last,
+							Detail: map[string]interface{}{"what": "the worker's heap passed the 5 GiB ceiling while running this case (a call that neither returns nor fails)",
+								"note": note, "stderr_tail": truncate(tail, 1500), "build_mode": mode}})
+					} else if isOOM(err, tail) {
 						merged.Infra = append(merged.Infra, fmt.Sprintf("worker %d killed (memory) at case %d", w, last))
 					} else {
 						merged.Deaths = append(merged.Deaths, Violation{Prop: def.ID, Fingerprint: fp, CaseIdx: last,
@@ -572,7 +601,7 @@ func coverageOf(covDir string) map[string]interface{} {
 }
 
 func isOOM(err error, tail string) bool {
-	if strings.Contains(tail, "out of memory") || strings.Contains(tail, "cannot allocate memory") {
+	if strings.Contains(tail, "out of memory") || strings.Contains(tail, "cannot allocate memory") || strings.Contains(tail, "MEMORY: heap") {
 		return true
 	}
 	if ee, ok := err.(*exec.ExitError); ok {
